@@ -1,3 +1,6 @@
+#[cfg(feature = "verif-hooks")]
+use crate::verif_hooks::{HashMap, HashSet};
+#[cfg(not(feature = "verif-hooks"))]
 use std::collections::{HashMap, HashSet};
 
 use quote::ToTokens;
